@@ -39,8 +39,14 @@ Definition R_er (st s1 : state) : Prop :=        (* error: frames of the failed 
 (* expressions never end with a loop signal (结束循环 / 继续循环 do not cross a call);
    a statement that ends with one has left no frame behind *)
 Definition no_sig (e : err) : Prop := is_loop_signal e = None.
+(* an expression that fails leaves the frames of the failed calls ON TOP of the caller's stack, which is otherwise
+   untouched: in particular the frame that evaluated the expression keeps its line (C18) *)
+Definition R_er_e (st s1 : state) : Prop :=
+  (exists extra, stack s1 = extra ++ stack st) /\
+  depth s1 = depth st /\ ext_shape st s1 /\ wf s1.
+
 Definition bal_e {A} (st : state) (r : res A) : Prop :=
-  wf st -> match r with Ok _ s1 => R_ok_e st s1 | Er e s1 => R_er st s1 /\ no_sig e | _ => True end.
+  wf st -> match r with Ok _ s1 => R_ok_e st s1 | Er e s1 => R_er_e st s1 /\ no_sig e | _ => True end.
 Definition bal_s {A} (st : state) (r : res A) : Prop :=
   wf st -> match r with
            | Ok _ s1 => R_ok_s st s1
@@ -89,6 +95,22 @@ Proof.
   all: destruct F1, F2; congruence.
 Qed.
 
+Lemma R_er_e_er a b : wf a -> R_er_e a b -> R_er a b.
+Proof.
+  intros [Hne _] ([ex Hs] & Hd & He & Hw). split; [|tauto].
+  destruct (stack a) as [|f tl] eqn:E; [congruence|].
+  exists ex, f, f, tl. repeat split; try reflexivity. exact Hs.
+Qed.
+
+Lemma R_ok_e_er_e a b c : R_ok_e a b -> R_er_e b c -> R_er_e a c.
+Proof.
+  intros (S1 & D1 & E1 & W1) ([ex S2] & D2 & E2 & W2).
+  split; [exists ex; rewrite S2, S1; reflexivity|].
+  repeat split; try congruence; try apply W2. eapply ext_shape_trans; eauto.
+Qed.
+
+Lemma R_wf_er_e a b : R_er_e a b -> wf b. Proof. intros (_ & _ & _ & W); exact W. Qed.
+
 Lemma R_ok_s_er a b c : R_ok_s a b -> R_er b c -> R_er a c.
 Proof.
   intros ((f & f' & tl & Sa & Sb & F1) & D1 & E1 & W1) ((ex & g & g' & tl2 & Sb2 & Sc & F2) & D2 & E2 & W2).
@@ -120,14 +142,14 @@ Proof.
   specialize (Hf a s Hr (R_wf_ok_e _ _ Hr)).
   destruct (f a s) as [b s2|e s2| |w]; try exact I.
   - eapply R_ok_e_trans; eassumption.
-  - destruct Hf as [Hf1 Hf2]. split; [eapply R_ok_e_er; eassumption|exact Hf2].
+  - destruct Hf as [Hf1 Hf2]. split; [eapply R_ok_e_er_e; eassumption|exact Hf2].
 Qed.
 
 Lemma bal_s_bind_e {A B} st (r : res A) (f : A -> state -> res B) :
   bal_e st r -> (forall a s, R_ok_e st s -> bal_s s (f a s)) -> bal_s st (bind r f).
 Proof.
   intros Hr Hf W. specialize (Hr W). destruct r as [a s|e s| |w]; simpl; try exact I.
-  2:{ destruct Hr as [Hr1 Hr2]. split; [exact Hr1|]. intros Hn. exfalso. apply Hn. exact Hr2. }
+  2:{ destruct Hr as [Hr1 Hr2]. split; [apply R_er_e_er; assumption|]. intros Hn. exfalso. apply Hn. exact Hr2. }
   specialize (Hf a s Hr (R_wf_ok_e _ _ Hr)).
   destruct (f a s) as [b s2|e s2| |w]; try exact I.
   - eapply R_ok_e_s_trans; eassumption.
@@ -150,7 +172,7 @@ Lemma bal_e_s {A} st (r : res A) : bal_e st r -> bal_s st r.
 Proof.
   intros H W. specialize (H W). destruct r; try exact H.
   - apply R_ok_e_s; assumption.
-  - destruct H as [H1 H2]. split; [exact H1|]. intros Hn; exfalso; apply Hn; exact H2.
+  - destruct H as [H1 H2]. split; [apply R_er_e_er; assumption|]. intros Hn; exfalso; apply Hn; exact H2.
 Qed.
 
 (* ------------------------------------------------------------------ *)
@@ -178,11 +200,17 @@ Proof.
   exists [], f, f, tl. rewrite Hs. repeat split; reflexivity.
 Qed.
 
+Lemma R_er_e_of_ctl st s1 : wf st -> ctl s1 = ctl st -> R_er_e st s1.
+Proof.
+  intros W H. pose proof (ctl_R_ok_e st s1 W H) as (Hs & Hd & He & Hw).
+  split; [|tauto]. exists []. rewrite Hs. reflexivity.
+Qed.
+
 Lemma pres_bal_e {A} st (r : res A) : pres st r -> bal_e st r.
 Proof.
   intros H W. destruct r; try exact I; simpl in H.
   - apply ctl_R_ok_e; assumption.
-  - destruct H as [H1 H2]. split; [apply R_er_of_ctl; assumption|exact H2].
+  - destruct H as [H1 H2]. split; [apply R_er_e_of_ctl; assumption|exact H2].
 Qed.
 
 Lemma pres_bind {A B} st (r : res A) (f : A -> state -> res B) :
@@ -395,15 +423,15 @@ Proof.
     + apply W.
     + cbn [syms depth set_syms].
       apply (set_sym_depths x v (fun d => (d <= depth st)%nat) _ _ H). apply W.
-  - split; [apply R_er_of_ctl; [assumption|reflexivity]|reflexivity].
-  - split; [apply R_er_of_ctl; [assumption|reflexivity]|reflexivity].
+  - split; [apply R_er_e_of_ctl; [assumption|reflexivity]|reflexivity].
+  - split; [apply R_er_e_of_ctl; [assumption|reflexivity]|reflexivity].
 Qed.
 
 Lemma bal_e_vm_declare st x v c : bal_e st (vm_declare st x v c).
 Proof.
   intros W. unfold vm_declare.
-  destruct (is_global x); [split; [apply R_er_of_ctl; [assumption|reflexivity]|reflexivity]|].
-  destruct (redeclared x (depth st) (syms st)); [split; [apply R_er_of_ctl; [assumption|reflexivity]|reflexivity]|].
+  destruct (is_global x); [split; [apply R_er_e_of_ctl; [assumption|reflexivity]|reflexivity]|].
+  destruct (redeclared x (depth st) (syms st)); [split; [apply R_er_e_of_ctl; [assumption|reflexivity]|reflexivity]|].
   repeat split; try reflexivity.
   - exists [(x, depth st, c, if c then Some v else None)]. split; [reflexivity|]. constructor; [reflexivity|constructor].
   - apply W.
